@@ -41,14 +41,91 @@ theorem cstep_tun {cl lf f : Bool} {y x : Conn} {a : CAct} {e : Eff}
   cstep_cases h <;> cases cl <;> constructor <;>
     simp_all [selfClosed, pastDec, tunPath]
 
+/-- `Close` starts its walk over the map only in `closeCloseCh`; the ghost flag never goes back -/
+theorem step_everClosed {s s' : State} (a : Action) (h : step s a = some s') :
+    (s'.everClosed = s.everClosed ∧ ∀ k, a ≠ .closeCloseCh k) ∨ (∃ k, a = .closeCloseCh k ∧ s'.everClosed = true) := by
+  cases a with
+  | conn c a =>
+    left
+    obtain ⟨x, e, _, rfl⟩ := step_conn_eq h
+    exact ⟨by cases e <;> rfl, by intro k; simp⟩
+  | closeCloseCh k =>
+    right
+    simp only [step] at h
+    split at h
+    · cases h; exact ⟨k, rfl, rfl⟩
+    · simp at h
+  | _ =>
+    left
+    simp only [step] at h
+    repeat' split at h
+    all_goals first
+      | (simp at h; done)
+      | (simp only [Option.some.injEq] at h; subst h
+         refine ⟨?_, by intro k; simp⟩
+         first | rfl | (simp only [closeListener, setConn]; done) | (split <;> rfl))
+
+/-- a call of `Close` that has started its walk over the map stays past that point -/
+theorem step_closeClosed_mono {s s' : State} (a : Action) (k : CallId) (h : step s a = some s')
+    (hc : closeClosed (s.closes k) = true) : closeClosed (s'.closes k) = true := by
+  by_cases ho : a.closeOf = some k
+  · cases a <;> simp only [Action.closeOf, Option.some.injEq, reduceCtorEq] at ho <;> subst ho <;>
+      simp only [step] at h <;> (repeat' split at h) <;>
+      first
+        | (simp at h; done)
+        | (simp only [Option.some.injEq] at h; subst h
+           simp_all [setClose, closeClosed])
+  · rw [step_closes_other a k h ho]; exact hc
+
+/-- the ghost flag `everClosed` says what its name says -/
+structure EverInv (s : State) : Prop where
+  ever : ∀ k, closeClosed (s.closes k) = true → s.everClosed = true
+  everEx : s.everClosed = true → ∃ k, closeClosed (s.closes k) = true
+
+theorem everinv_initCfg (nl sg : Bool) : EverInv (initCfg nl sg) := by
+  constructor <;> simp [initCfg, closeClosed]
+
+theorem everinv_step {s s' : State} (a : Action) (hi : EverInv s) (h : step s a = some s') : EverInv s' := by
+  have hev := step_everClosed a h
+  constructor
+  · intro k hk
+    rcases hev with ⟨he, hne⟩ | ⟨j, _, he⟩
+    · rw [he]
+      by_cases ho : a.closeOf = some k
+      · have hk0 := hi.ever k
+        revert hk
+        cases a <;> simp only [Action.closeOf, Option.some.injEq, reduceCtorEq] at ho <;> subst ho <;>
+          simp only [step] at h <;> (repeat' split at h) <;>
+          first
+            | (simp at h; done)
+            | (exact absurd rfl (hne _))
+            | (simp only [Option.some.injEq] at h; subst h
+               simp_all [setClose, closeClosed])
+      · rw [step_closes_other a k h ho] at hk; exact hi.ever k hk
+    · exact he
+  · intro he'
+    rcases hev with ⟨he, _⟩ | ⟨j, ha, _⟩
+    · rw [he] at he'
+      obtain ⟨k, hk⟩ := hi.everEx he'
+      exact ⟨k, step_closeClosed_mono a k h hk⟩
+    · subst ha
+      simp only [step] at h
+      split at h
+      · cases h; exact ⟨j, by simp [setClose, closeClosed]⟩
+      · simp at h
+
+theorem everinv_reachable {s : State} (h : Reachable s) : EverInv s := by
+  induction h with
+  | start nl sg => exact everinv_initCfg nl sg
+  | step a _ hs ih => exact everinv_step a ih hs
+
 structure TunInv (s : State) : Prop where
-  loc : ∀ c, TunLocal (closeClosed s.close) (s.conns c)
+  loc : ∀ c, TunLocal s.everClosed (s.conns c)
 
-theorem tuninv_init : TunInv init := ⟨fun _ => TunLocal.default _⟩
+theorem tuninv_initCfg (nl sg : Bool) : TunInv (initCfg nl sg) := ⟨fun _ => TunLocal.default _⟩
 
-theorem tuninv_initNoLimit : TunInv initNoLimit := ⟨fun _ => TunLocal.default _⟩
-
-theorem tuninv_step {s s' : State} (a : Action) (hi : TunInv s) (h : step s a = some s') : TunInv s' := by
+theorem tuninv_step {s s' : State} (a : Action) (he : EverInv s) (hi : TunInv s) (h : step s a = some s') :
+    TunInv s' := by
   cases a with
   | conn c a =>
     obtain ⟨x, e, hc, rfl⟩ := step_conn_eq h
@@ -58,6 +135,17 @@ theorem tuninv_step {s s' : State} (a : Action) (hi : TunInv s) (h : step s a = 
     by_cases hdc : d = c
     · subst hdc; cases e <;> simpa [applyEff, setConn] using hx
     · cases e <;> simpa [applyEff, setConn, hdc] using hd
+  | closeConn k c =>
+    simp only [step] at h
+    split at h
+    · rename_i hg; cases h
+      have hev := he.ever k (by simp [hg.1, closeClosed])
+      refine ⟨fun d => ?_⟩
+      have hd := hi.loc d
+      obtain ⟨h1, h2, h3⟩ := hd
+      constructor <;> (try simp only [setConn]) <;> (repeat' split) <;>
+        simp_all [selfClosed, pastDec, tunPath]
+    · simp at h
   | _ =>
     simp only [step] at h
     repeat' split at h
@@ -67,14 +155,13 @@ theorem tuninv_step {s s' : State} (a : Action) (hi : TunInv s) (h : step s a = 
          refine ⟨fun d => ?_⟩
          have hd := hi.loc d
          obtain ⟨h1, h2, h3⟩ := hd
-         constructor <;> (try simp only [setConn, closeListener]) <;> (repeat' split) <;>
-           simp_all [closeClosed, selfClosed, pastDec, tunPath])
+         constructor <;> (try simp only [setConn, closeListener, setShut, setClose]) <;> (repeat' split) <;>
+           simp_all [selfClosed, pastDec, tunPath])
 
 theorem tuninv_reachable {s : State} (h : Reachable s) : TunInv s := by
   induction h with
-  | init => exact tuninv_init
-  | initNoLimit => exact tuninv_initNoLimit
-  | step a _ hs ih => exact tuninv_step a ih hs
+  | start nl sg => exact tuninv_initCfg nl sg
+  | step a hr hs ih => exact tuninv_step a (everinv_reachable hr) ih hs
 
 end C11
 end FwdVerif
